@@ -37,6 +37,9 @@ func (w *Worker) findIntrinsic(fn *ssa.Function) intrinsic {
 	if in, ok := intrinsics[name]; ok {
 		return in
 	}
+	if fn.Name() == "ProtoReflect" && fn.Signature.Recv() != nil && strings.HasSuffix(pkg, "/protobuf") {
+		return protoReflectStub
+	}
 	switch {
 	case pkg == "k8s.io/klog/v2":
 		return func(w *Worker, fr *frame, args []Value) (Value, bool) {
@@ -108,23 +111,23 @@ func vI(i int) Value    { return mkInt(64, uint64(int64(i))) }
 func vS(s string) Value { return Str{S: s} }
 
 var nativePure = map[string]func(w *Worker, args []Value) Value{
-	"strings.Contains":    func(w *Worker, a []Value) Value { return mkBool(strings.Contains(sS(a[0]), sS(a[1]))) },
-	"strings.Index":       func(w *Worker, a []Value) Value { return vI(strings.Index(sS(a[0]), sS(a[1]))) },
-	"strings.LastIndex":   func(w *Worker, a []Value) Value { return vI(strings.LastIndex(sS(a[0]), sS(a[1]))) },
-	"strings.IndexByte":   func(w *Worker, a []Value) Value { return vI(strings.IndexByte(sS(a[0]), byte(a[1].(Int).C))) },
-	"strings.HasPrefix":   func(w *Worker, a []Value) Value { return mkBool(strings.HasPrefix(sS(a[0]), sS(a[1]))) },
-	"strings.HasSuffix":   func(w *Worker, a []Value) Value { return mkBool(strings.HasSuffix(sS(a[0]), sS(a[1]))) },
-	"strings.ToUpper":     func(w *Worker, a []Value) Value { return vS(strings.ToUpper(sS(a[0]))) },
-	"strings.ToLower":     func(w *Worker, a []Value) Value { return vS(strings.ToLower(sS(a[0]))) },
-	"strings.TrimSpace":   func(w *Worker, a []Value) Value { return vS(strings.TrimSpace(sS(a[0]))) },
-	"strings.Replace":     func(w *Worker, a []Value) Value { return vS(strings.Replace(sS(a[0]), sS(a[1]), sS(a[2]), sI(a[3]))) },
-	"strings.ReplaceAll":  func(w *Worker, a []Value) Value { return vS(strings.ReplaceAll(sS(a[0]), sS(a[1]), sS(a[2]))) },
-	"strings.EqualFold":   func(w *Worker, a []Value) Value { return mkBool(strings.EqualFold(sS(a[0]), sS(a[1]))) },
-	"strings.Count":       func(w *Worker, a []Value) Value { return vI(strings.Count(sS(a[0]), sS(a[1]))) },
-	"strconv.Itoa":        func(w *Worker, a []Value) Value { return vS(strconv.Itoa(sI(a[0]))) },
-	"strconv.FormatInt":   func(w *Worker, a []Value) Value { return vS(strconv.FormatInt(int64(sI(a[0])), sI(a[1]))) },
-	"strconv.FormatUint":  func(w *Worker, a []Value) Value { return vS(strconv.FormatUint(a[0].(Int).C, sI(a[1]))) },
-	"strconv.Quote":       func(w *Worker, a []Value) Value { return vS(strconv.Quote(sS(a[0]))) },
+	"strings.Contains":   func(w *Worker, a []Value) Value { return mkBool(strings.Contains(sS(a[0]), sS(a[1]))) },
+	"strings.Index":      func(w *Worker, a []Value) Value { return vI(strings.Index(sS(a[0]), sS(a[1]))) },
+	"strings.LastIndex":  func(w *Worker, a []Value) Value { return vI(strings.LastIndex(sS(a[0]), sS(a[1]))) },
+	"strings.IndexByte":  func(w *Worker, a []Value) Value { return vI(strings.IndexByte(sS(a[0]), byte(a[1].(Int).C))) },
+	"strings.HasPrefix":  func(w *Worker, a []Value) Value { return mkBool(strings.HasPrefix(sS(a[0]), sS(a[1]))) },
+	"strings.HasSuffix":  func(w *Worker, a []Value) Value { return mkBool(strings.HasSuffix(sS(a[0]), sS(a[1]))) },
+	"strings.ToUpper":    func(w *Worker, a []Value) Value { return vS(strings.ToUpper(sS(a[0]))) },
+	"strings.ToLower":    func(w *Worker, a []Value) Value { return vS(strings.ToLower(sS(a[0]))) },
+	"strings.TrimSpace":  func(w *Worker, a []Value) Value { return vS(strings.TrimSpace(sS(a[0]))) },
+	"strings.Replace":    func(w *Worker, a []Value) Value { return vS(strings.Replace(sS(a[0]), sS(a[1]), sS(a[2]), sI(a[3]))) },
+	"strings.ReplaceAll": func(w *Worker, a []Value) Value { return vS(strings.ReplaceAll(sS(a[0]), sS(a[1]), sS(a[2]))) },
+	"strings.EqualFold":  func(w *Worker, a []Value) Value { return mkBool(strings.EqualFold(sS(a[0]), sS(a[1]))) },
+	"strings.Count":      func(w *Worker, a []Value) Value { return vI(strings.Count(sS(a[0]), sS(a[1]))) },
+	"strconv.Itoa":       func(w *Worker, a []Value) Value { return vS(strconv.Itoa(sI(a[0]))) },
+	"strconv.FormatInt":  func(w *Worker, a []Value) Value { return vS(strconv.FormatInt(int64(sI(a[0])), sI(a[1]))) },
+	"strconv.FormatUint": func(w *Worker, a []Value) Value { return vS(strconv.FormatUint(a[0].(Int).C, sI(a[1]))) },
+	"strconv.Quote":      func(w *Worker, a []Value) Value { return vS(strconv.Quote(sS(a[0]))) },
 	"unicode/utf8.ValidString": func(w *Worker, a []Value) Value {
 		return mkBool(validUTF8(sS(a[0])))
 	},
@@ -140,12 +143,12 @@ func validUTF8(s string) bool {
 	return true
 }
 
-var intrinsics map[string]intrinsic
+var intrinsics = map[string]intrinsic{}
 
 func init() {
 	noop := func(w *Worker, fr *frame, args []Value) (Value, bool) { return zeroRet(fr.fn), true }
 	ident := func(w *Worker, fr *frame, args []Value) (Value, bool) { return args[0], true }
-	intrinsics = map[string]intrinsic{
+	for k, v := range map[string]intrinsic{
 		// ---- sync: state machines are trivial under cooperative scheduling
 		"(*sync.Mutex).Lock":      lockIntr("Mutex.Lock"),
 		"(*sync.Mutex).Unlock":    lockIntr("Mutex.Unlock"),
@@ -207,23 +210,23 @@ func init() {
 			return nil, true
 		},
 		// ---- sync/atomic on cells
-		"sync/atomic.LoadUint32":  atomicLoad,
-		"sync/atomic.LoadUint64":  atomicLoad,
-		"sync/atomic.LoadInt32":   atomicLoad,
-		"sync/atomic.LoadInt64":   atomicLoad,
-		"sync/atomic.LoadPointer": atomicLoad,
-		"sync/atomic.StoreUint32": atomicStore,
-		"sync/atomic.StoreUint64": atomicStore,
-		"sync/atomic.StoreInt32":  atomicStore,
-		"sync/atomic.StoreInt64":  atomicStore,
-		"sync/atomic.AddUint32":   atomicAdd,
-		"sync/atomic.AddUint64":   atomicAdd,
-		"sync/atomic.AddInt32":    atomicAdd,
-		"sync/atomic.AddInt64":    atomicAdd,
-		"sync/atomic.SwapUint32":  atomicSwap,
-		"sync/atomic.SwapInt32":   atomicSwap,
-		"sync/atomic.SwapUint64":  atomicSwap,
-		"sync/atomic.SwapInt64":   atomicSwap,
+		"sync/atomic.LoadUint32":           atomicLoad,
+		"sync/atomic.LoadUint64":           atomicLoad,
+		"sync/atomic.LoadInt32":            atomicLoad,
+		"sync/atomic.LoadInt64":            atomicLoad,
+		"sync/atomic.LoadPointer":          atomicLoad,
+		"sync/atomic.StoreUint32":          atomicStore,
+		"sync/atomic.StoreUint64":          atomicStore,
+		"sync/atomic.StoreInt32":           atomicStore,
+		"sync/atomic.StoreInt64":           atomicStore,
+		"sync/atomic.AddUint32":            atomicAdd,
+		"sync/atomic.AddUint64":            atomicAdd,
+		"sync/atomic.AddInt32":             atomicAdd,
+		"sync/atomic.AddInt64":             atomicAdd,
+		"sync/atomic.SwapUint32":           atomicSwap,
+		"sync/atomic.SwapInt32":            atomicSwap,
+		"sync/atomic.SwapUint64":           atomicSwap,
+		"sync/atomic.SwapInt64":            atomicSwap,
 		"sync/atomic.CompareAndSwapUint32": atomicCAS,
 		"sync/atomic.CompareAndSwapInt32":  atomicCAS,
 		"sync/atomic.CompareAndSwapUint64": atomicCAS,
@@ -237,7 +240,13 @@ func init() {
 		"runtime.KeepAlive":     noop,
 		"internal/abi.NoEscape": ident,
 		"internal/abi.Escape":   ident,
-		"runtime.Gosched":       func(w *Worker, fr *frame, a []Value) (Value, bool) { if len(w.gs) > 1 { w.idleYields = 0; w.yield("Gosched") }; return nil, true },
+		"runtime.Gosched": func(w *Worker, fr *frame, a []Value) (Value, bool) {
+			if len(w.gs) > 1 {
+				w.idleYields = 0
+				w.yield("Gosched")
+			}
+			return nil, true
+		},
 		"runtime.SetFinalizer":  noop,
 		"internal/race.Enable":  noop,
 		"internal/race.Disable": noop,
@@ -274,24 +283,24 @@ func init() {
 			return vI(strings.Index(sS(a[0]), sS(a[1]))), true
 		},
 		// ---- fmt / errors
-		"fmt.Errorf":    fmtErrorf,
-		"fmt.Sprintf":   fmtOpaque,
-		"fmt.Sprint":    fmtOpaque,
-		"fmt.Sprintln":  fmtOpaque,
-		"fmt.Fprintf":   fmtOpaqueN,
-		"fmt.Fprint":    fmtOpaqueN,
-		"fmt.Fprintln":  fmtOpaqueN,
-		"fmt.Printf":    fmtOpaqueN,
-		"fmt.Println":   fmtOpaqueN,
-		"fmt.Print":     fmtOpaqueN,
-		"errors.Is":     errorsIs,
+		"fmt.Errorf":   fmtErrorf,
+		"fmt.Sprintf":  fmtOpaque,
+		"fmt.Sprint":   fmtOpaque,
+		"fmt.Sprintln": fmtOpaque,
+		"fmt.Fprintf":  fmtOpaqueN,
+		"fmt.Fprint":   fmtOpaqueN,
+		"fmt.Fprintln": fmtOpaqueN,
+		"fmt.Printf":   fmtOpaqueN,
+		"fmt.Println":  fmtOpaqueN,
+		"fmt.Print":    fmtOpaqueN,
+		"errors.Is":    errorsIs,
 		// ---- time
 		"time.Now": timeNow,
 		"time.Sleep": func(w *Worker, fr *frame, a []Value) (Value, bool) {
 			w.stub("time.Sleep (no-op)")
 			return nil, true
 		},
-		"(time.Time).Add": timeAddSym,
+		"(time.Time).Add":  timeAddSym,
 		"time.runtimeNano": func(w *Worker, fr *frame, a []Value) (Value, bool) { return mkInt(64, 0), true },
 		// ---- net (concrete only)
 		"(net.IP).String": func(w *Worker, fr *frame, a []Value) (Value, bool) {
@@ -330,6 +339,8 @@ func init() {
 			return s, true
 		},
 		"encoding/binary.Read": binaryRead,
+	} {
+		intrinsics[k] = v
 	}
 }
 
